@@ -182,6 +182,7 @@ type Conn struct {
 	afterWrite func(n int)
 	writeHook  func(p []byte)
 	syncWrites bool
+	syncOff    chan struct{} // closed when synchronous writes are turned off
 	stall      chan struct{}
 
 	blockedNoDeadline atomic.Int32
@@ -259,9 +260,18 @@ func (c *Conn) StallWrites(on bool) {
 // SetSyncWrites makes Write block, like net.Pipe, until the peer has read
 // everything that was written (or the connection is closed or the write
 // deadline passes).
+// Turning it off also releases the writes that are waiting at that moment:
+// their bytes are in the peer's input buffer, the mode of a buffered
+// connection.
 func (c *Conn) SetSyncWrites(on bool) {
 	c.mu.Lock()
 	c.syncWrites = on
+	if on {
+		c.syncOff = make(chan struct{})
+	} else if c.syncOff != nil {
+		close(c.syncOff)
+		c.syncOff = nil
+	}
 	c.mu.Unlock()
 }
 
@@ -562,6 +572,7 @@ func (c *Conn) Write(p []byte) (int, error) {
 	aw := c.afterWrite
 	wh := c.writeHook
 	syncW := c.syncWrites
+	syncOff := c.syncOff
 	c.mu.Unlock()
 	c.out.put(p[:n])
 	if syncW && err == nil {
@@ -577,6 +588,8 @@ func (c *Conn) Write(p []byte) (int, error) {
 			select {
 			case <-ch:
 				continue
+			case <-syncOff:
+				// the connection is a buffered one from now on
 			case <-c.closed:
 				err = io.ErrClosedPipe
 			case <-c.peerClosed:
